@@ -1,4 +1,4 @@
-from asyncio import gather
+from asyncio import CancelledError, gather, shield
 from collections.abc import Iterable
 from contextlib import AbstractAsyncContextManager
 from itertools import chain
@@ -54,22 +54,43 @@ class Disposables:
             )
         ]
 
-    async def __aexit__(
+    async def _dispose(
         self,
+        disposables: Iterable[Disposable],
         exc_type: type[BaseException] | None,
         exc_val: BaseException | None,
         exc_tb: TracebackType | None,
-    ) -> None:
-        results: list[bool | BaseException | None] = await gather(
+    ) -> list[bool | BaseException | None]:
+        disposing = gather(
             *[
                 disposable.__aexit__(
                     exc_type,
                     exc_val,
                     exc_tb,
                 )
-                for disposable in self._disposables
+                for disposable in disposables
             ],
             return_exceptions=True,
+        )
+        try:
+            return await shield(disposing)
+
+        except CancelledError:
+            # cancelled while disposing - every disposable has to be exited before propagating it
+            await disposing
+            raise
+
+    async def __aexit__(
+        self,
+        exc_type: type[BaseException] | None,
+        exc_val: BaseException | None,
+        exc_tb: TracebackType | None,
+    ) -> None:
+        results: list[bool | BaseException | None] = await self._dispose(
+            self._disposables,
+            exc_type,
+            exc_val,
+            exc_tb,
         )
 
         exceptions: list[BaseException] = [exc for exc in results if isinstance(exc, BaseException)]
